@@ -362,3 +362,124 @@ def replace_tokenize_laws(s: str) -> bool:
 
 parse_T = parse_all({'m1': 'matches($s, "^a*b$")', 'm2': 'matches($s, "[0-9]+")', 'r1': 'replace($s, "b", "$0")',
                      't1': 'string-join(tokenize($s, "b"), "b")'})
+
+
+# --- added after seeded-change review: multi-digit back-references (XPath mode), back-references as uninterpreted symbols ---------
+
+LETTERS = 'abcdefghijkl'
+
+
+def _groups(k):
+    return ''.join('(%s)' % LETTERS[i] for i in range(k))
+
+
+def backref_family():
+    pats = []
+    for k in (1, 2, 9, 10, 11, 12):
+        for ref in ('1', '2', '9', '10', '11', '12', '19', '100', '110'):
+            pats.append(_groups(k) + '\\' + ref)
+            pats.append(_groups(k) + '\\' + ref + 'z')
+            pats.append('x' + _groups(k) + '(?:y)' + '\\' + ref)
+    return pats
+
+
+def _ref_ir_to_py(ir):
+    """reference IR -> a Python pattern built by the harness (back-references kept): the concrete oracle for replay"""
+    t = ir[0]
+    if t == 'set':
+        rs = ir[1]
+        return '[' + ''.join('%s-%s' % (re.escape(chr(a)), re.escape(chr(b))) for a, b in rs) + ']'
+    if t == 'sym':
+        return '(?:\\%d)' % ir[1]
+    if t == 'cat':
+        return ''.join(_ref_ir_to_py(x) for x in ir[1])
+    if t == 'alt':
+        return '(?:' + '|'.join(_ref_ir_to_py(x) for x in ir[1]) + ')'
+    if t == 'rep':
+        return '(?:%s){%d,%s}' % (_ref_ir_to_py(ir[3]), ir[1], '' if ir[2] is None else ir[2])
+    if t == 'bol':
+        return '^'
+    if t == 'eos':
+        return '\\Z'
+    raise ValueError(t)
+
+
+def replay_backref(pattern, subject):
+    """concrete replay: the subject (back-reference symbols already replaced by the text of their group) must be treated alike by
+    the translated pattern and by a Python pattern generated from the reference tokenisation of the back-references"""
+    try:
+        py = translate_pattern('^(?:' + pattern + ')$')
+    except RegexError:
+        py = None
+    try:
+        ref = _reference_with_groups(pattern)
+    except rx.Invalid:
+        ref = None
+    if py is None or ref is None:
+        return (py is None or not _compiles(py, 0)) == (ref is None)
+    return (re.compile(py).search(subject) is not None) == (re.compile(ref).search(subject) is not None)
+
+
+def _reference_with_groups(pattern):
+    """reference Python pattern with real capturing groups: only for the literal-group family used here"""
+    p = rx.XsdRef('^(?:' + pattern + ')$', xpath=True, blocks=BLOCKS)
+    p.parse()      # validity and tokenisation of the back-references
+    out, i, groups = [], 0, 0
+    while i < len(pattern):
+        c = pattern[i]
+        if c == '\\' and pattern[i + 1].isdigit():
+            n = int(pattern[i + 1])
+            j = i + 2
+            while j < len(pattern) and pattern[j].isdigit() and n * 10 + int(pattern[j]) <= groups:
+                n = n * 10 + int(pattern[j])
+                j += 1
+            out.append('(?:\\%d)' % n)
+            i = j
+            continue
+        if c == '(' and pattern[i:i + 3] != '(?:':
+            groups += 1
+        out.append(c)
+        i += 1
+    return '^(?:' + ''.join(out) + ')\\Z'
+
+
+@ob(engine='z3', budget=120, bound='XPath mode, %d patterns with 1..12 literal capturing groups followed by \\N (N = 1..110): same language over the alphabet extended with one uninterpreted letter per back-reference (tokenisation of multi-digit back-references; matching semantics of back-references not modelled)' % len(backref_family()),
+    funcs=[R + ':translate_pattern (back-reference branch)'])
+def language_xpath_backrefs(ctx):
+    q = Queries(timeout_s=20, diff_binary=False)
+    cex = []
+    counts = {}
+    for p in backref_family():
+        try:
+            py = translate_pattern('^(?:' + p + ')$')
+        except RegexError:
+            py = None
+        try:
+            ref = rx.XsdRef('^(?:' + p + ')$', xpath=True, blocks=BLOCKS).parse()
+        except rx.Invalid:
+            ref = None
+        if py is not None and not _compiles(py, 0):
+            py = None       # the error is deferred to re.compile: fn:matches reports FORX0002 for it as well
+        if ref is None or py is None:
+            ok = (ref is None) == (py is None)
+            counts['invalid-agreed' if ok else 'validity-differs'] = counts.get('invalid-agreed' if ok else 'validity-differs', 0) + 1
+            if not ok:
+                cex.append(dict(call='replay_backref(%r, %r)' % (p, 'a'), message='validity of %r differs' % p))
+            continue
+        try:
+            res, wit, ncls, dt = rx.compare(rx.from_sre(py), ref, timeout_ms=20000)
+        except rx.NotRegular as e:
+            q.unknown += 1
+            q.log.append(dict(query=p, result='not-encodable', why=str(e)))
+            continue
+        q.n += 1
+        q.solver_s += dt
+        counts[res] = counts.get(res, 0) + 1
+        if res == 'sat':
+            # replace the back-reference letters of the witness by the text of the referenced group
+            subj = re.sub(r'\\\\(\\d+)', lambda m: LETTERS[int(m.group(1)) - 1] if int(m.group(1)) <= 12 else '?', wit)
+            cex.append(dict(call='replay_backref(%r, %r)' % (p, subj), message='P=%r: python %r differs from the reference tokenisation, witness %r' % (p, py, wit)))
+        elif res != 'unsat':
+            q.unknown += 1
+    q.samples.extend(backref_family()[:6])
+    return q.result(cex[:10], detail=dict(programs=sum(counts.values()), outcomes=counts))
